@@ -27,6 +27,11 @@ def main():
         rc, o = sh('/venv/bin/python -m pytest -q -p no:cacheprovider --timeout=900 2>&1 | tail -3', cwd=scratch, env=env)
         meta['suite_with_change'] = o.strip().split('\n')[-1]
         meta['suite_unchanged'] = ('171 passed' in o and '1 failed' in o and 'test_vertical_ideal_ground_near' in o)
+        if not meta['suite_unchanged']:
+            # test_timing asserts wall-clock limits and fails on a busy machine: one more run
+            rc, o = sh('/venv/bin/python -m pytest -q -p no:cacheprovider --timeout=900 2>&1 | tail -3', cwd=scratch, env=env)
+            meta['suite_with_change_rerun'] = o.strip().split('\n')[-1]
+            meta['suite_unchanged'] = ('171 passed' in o and '1 failed' in o and 'test_vertical_ideal_ground_near' in o)
         rc1, o1 = sh('/venv/bin/python %s/demo.py' % dst, cwd=scratch, env=env, timeout=600)
         meta['demo_with_change_rc'] = rc1
         meta['demo_with_change_tail'] = o1.strip().split('\n')[-3:]
